@@ -66,6 +66,16 @@ The change must read like a plausible refactoring / optimisation / clean-up of t
 HARD6 = HARD5.replace("ROUND 5", "ROUND 6").replace("Four rounds", "Five rounds") + '''
 Already used in the previous code-first round, so pick something else: `.ok()` swallowing a missing-variable error; a short-circuit on a zero factor; `break` for `continue` in a per-sample or per-layer loop; fresh ids taken from the used instead of the defined variables; `map_while` ending a walk at an empty removed entry; only the first id of a grouped objective entry considered; `get_constant()` on a polynomial with several constant monomials; the `substituted_value` of earlier fixings erased by a later `partial_evaluate`; the kind guard narrowed to `Kind::Continuous`; an `as_integer_bound()` applied before scaling; `zip` of a sorted id set against a stored vector; `entry().or_insert` in a setter; a zero-entry section returning an empty vector; a malformed value swallowed by `parse().ok()`; a RANGES entry for an undeclared row skipped; LI/UI values rounded; default bound ends not written.
 '''
+HARD7 = '''
+## HARD MODE, ROUND 7 (read carefully)
+Six rounds of seeded changes have been collected and the oracle under evaluation — a runtime monitor that drives the public API with hundreds of thousands of generated inputs, histories and SDK pipelines per property and compares with an independent exact model — now catches nearly everything planted INSIDE the functions the anchors name. This round, plant the defect ELSEWHERE: the diff must NOT touch the body of an anchored function. Instead change something those functions rely on, so that the property breaks indirectly:
+- a shared helper, trait impl or macro (`Default`, `From`/`TryFrom`/`Into`, `PartialEq`/`Ord`/`Hash` used for map keys or dedup, `IntoIterator`/term iterators, `AbsDiffEq`, `Zero`/`One`, sorted-id / monomial-key types, bound and interval helpers, id allocators, parse helpers for numbers and tokens, name/tag formatting helpers, the proto <-> typed conversion layer, `arbitrary`-free constructors such as `new`, `zero`, `single_term`);
+- a PERFORMANCE-motivated rewrite of such a helper: pre-sizing, caching / memoisation with too coarse a key, `sort_unstable` or `dedup_by_key` where order or full equality mattered, a Vec indexed by id instead of a map, an early exit, `retain` in place of a rebuild, merging two passes into one, `f64::mul_add`, summation in a different container, reusing a buffer across calls without clearing it;
+- a change of a CONSTANT, default or limit shared by several call sites (tolerances, maximum sizes, sentinel values, media-type or annotation-key strings, section keywords);
+- a change in how a helper treats an EDGE input that its own unit tests do not pin down (empty input, a single element, duplicates, already-sorted vs unsorted, the largest id, negative zero, NaN / infinity, an absent optional field).
+The anchored function must still read exactly as before; the break must nevertheless be observable through the PUBLIC behaviour the statement describes, on inputs inside the statement's quantifier. It must read like a plausible refactoring / optimisation / clean-up and keep the 102 tests green (helpers with their own unit or property tests are hard to change unnoticed — look for the ones without). Your demonstration test must construct the trigger deterministically and show the property's statement (not an implementation detail) failing.
+Already used in earlier rounds, so pick something else: `SortedIds` addition without re-sorting; `BinaryIdPair` conversion collapsing three ids to two; `Linear` Sum folding from a variable; `Bound::pow` loosened; the parser's line counter; the id-tag parser of the MPS reader; `Digest` comparison without the algorithm; timestamp precision of annotation setters.
+'''
 os.makedirs('/tmp/seedwork', exist_ok=True)
 BENIGN = """You are a careful Rust engineer helping to evaluate a test oracle for FALSE ALARMS. The oracle is a runtime monitor that drives the public API of the OMMX Rust SDK with many generated inputs and checks ONE stated semantic property. A good oracle must stay silent on any code change that keeps the property true. Your job: produce realistic BEHAVIOUR-PRESERVING CHANGES ("benign refactorings") of the code the property is anchored in — changes after which the property STILL HOLDS for every input, but which alter as much as possible of what the property does NOT promise.
 
@@ -126,7 +136,7 @@ for pid, p in props.items():
         continue
     text = json.dumps({k: p[k] for k in ['id', 'title', 'statement', 'quantifier', 'why_tests_cant', 'anchors']}, indent=1)
     wt, out, demo = f'/tmp/seed{R}-{pid}', f'/tmp/seed{R}-{pid}-out', f'seeded_demo{R}_{pid.lower()}'
-    hard = {1: '', 2: HARD2, 3: HARD3, 4: HARD4, 5: HARD5, 6: HARD6}[rnd]
+    hard = {1: '', 2: HARD2, 3: HARD3, 4: HARD4, 5: HARD5, 6: HARD6, 7: HARD7}[rnd]
     prompt = f'''You are a careful Rust engineer helping to evaluate how well a test oracle detects regressions. Your job: produce realistic BREAKING CHANGES ("seeded defects") to the OMMX Rust SDK that violate ONE stated semantic property while still compiling and passing the project's existing test suite.
 
 ## Your workspace
